@@ -47,15 +47,16 @@ def check(ctx):
         ctx.after_ok("1.report-after-commit-ok", cm, [si])
         ctx.dominated("1.tx-opened-before-process", b, [pr], by_blocks=[wt])
         o = Origins(b, 0)
-        same = lambda a: atom_match(o.atoms(a), "call:fuel_core_storage::transactional::WriteTransaction::write_transaction") or atom_match(o.atoms(a), "local:tx")
+        same = lambda a: atom_match(o.atoms(a), "call:fuel_core_storage::transactional::WriteTransaction::write_transaction")
         ctx.add("1.process-writes-into-the-group-transaction", "PROV", same(pr.args[2]), "handler.process gets &mut tx", sites=[pr.where()], site_key="ptx")
         ctx.add("1.progress-written-into-the-same-transaction", "PROV", same(up.args[0]), "update_genesis_progress gets &mut tx", sites=[up.where()], site_key="utx")
         ctx.add("1.that-transaction-is-committed", "PROV", same(cm.args[0]), "tx.commit() commits that transaction", sites=[cm.where()], site_key="ctx")
-        ctx.arg_origin("1.progress-index-is-group-index", up, 2, "local:index", depth=0)
+        # the closure argument is the (index, group) pair produced by enumerate(): field 0 is the index, field 1 the group
+        ctx.arg_origin("1.progress-index-is-group-index", up, 2, "field:0", depth=0)
         ctx.arg_origin("1.progress-key-is-migration-name", up, 1, f"call:{MIG}", depth=1)
-        ctx.arg_origin("1.processed-group-is-the-enumerated-group", pr, 1, "local:group", depth=0)
+        ctx.arg_origin("1.processed-group-is-the-enumerated-group", pr, 1, "field:1", depth=1)
         # the transaction is opened on the task's database (the one whose progress `new` reads)
-        ctx.arg_origin("1.tx-on-task-database", wt, 0, "upvar:db", depth=0)
+        ctx.add("1.tx-on-task-database", "PROV", atom_match(ctx.resolved_atoms(u, b, wt.args[0], 1), f"field:{TASK}.db"), "the transaction is opened on the task's own database (self.db)", sites=[wt.where()], site_key="wtdb")
         # error exits of the three fallible steps do not pass the commit
         for nm, c in (("process", pr), ("progress", up)):
             bad, _ = ctx.ok_edges(c, polarity="bad")
@@ -67,7 +68,7 @@ def check(ctx):
         ctx.add("1.commit-error-propagates", "REJECT", bool(bad) and all(b.path([ctx._edge_target(b, e)], b.return_blocks() + [si.bb], cut_blocks=b.error_blocks()) is None for e in bad),
                 "a failing commit ends the import with an error and is not reported as progress", sites=[cm.where()], site_key="cm:prop")
         # group read error leaves before the transaction is opened
-        tb = [c for c in b.calls_to("core::ops::try_trait::Try::branch") if c.bb in b.live and atom_match(Origins(b, 0).atoms(c.args[0]), "local:group")]
+        tb = [c for c in b.calls_to("core::ops::try_trait::Try::branch") if c.bb in b.live and atom_match(Origins(b, 0).atoms(c.args[0]), "field:1") and b.path([c.target], [wt.bb]) is not None]
         ctx.expect_sites("1.group-read-error-checked", tb, at_least=1, what="`group?`")
         ctx.dominated("1.group-read-checked-before-write", b, [wt, pr], by_blocks=tb[:1])
         # no other storage write / commit in the closure
@@ -111,7 +112,7 @@ def check(ctx):
             ctx.add("3.skip-is-index-plus-1-or-0", "PROV", atom_match(at, "call:usize::saturating_add") and any(k == "const" and str(v) in ("0", "0_usize") for k, v in at),
                     "skip = stored index + 1, or 0 when nothing is stored", sites=[str(ag[0].get("line"))], site_key="skip", witness={"atoms": sorted(map(str, at))[:12]})
             at = Origins(nb, 0).atoms(ag[0]["rv"]["ops"][f.index("db")])
-            ctx.add("3.task-db-is-the-queried-db", "PROV", atom_match(at, "param:3") or atom_match(at, "local:db"), "the task writes the database whose progress it read", sites=[str(ag[0].get("line"))], site_key="db")
+            ctx.add("3.task-db-is-the-queried-db", "PROV", atom_match(at, "param:3"), "the task writes the database whose progress it read", sites=[str(ag[0].get("line"))], site_key="db")
         # new() and run() name the migration with the same generic arguments
         mr = [c for x in F.unit(f"{TASK}::run").bodies for c in x.calls_to(MIG) if c.bb in x.live]
         mn = [c for c in nb.calls_to(MIG) if c.bb in nb.live]
